@@ -1571,6 +1571,7 @@ class GroupByCumulativeFinalizer(Expr, GroupByBase):
                 self.operand("columns"),
                 self.aggregate,
                 self.initial,
+                self._meta.name if is_series_like(self._meta) else no_default,
             )
         return dsk
 
